@@ -666,3 +666,15 @@ Theorem bgp_session_ids_wrap_refuted :
   b_sess_of st' 0 <> None /\ b_sess_of st' 1 <> None /\
   b_session_id st' 0 = Some 2 /\ b_session_id st' 1 = Some 2.
 Proof. exact (bgp_session_ids_wrap (N.to_nat (two32 - 1)) (N2Nat.id (two32 - 1))). Qed.
+
+(* non-vacuity of 2a-2c: two sessions; the entry of address 0 is rewritten and the file loaded (its session ends, the
+   other one goes on); address 0 comes back and is accepted with the new entry and a new id; address 3 is refused *)
+Definition b_inv_example : list bop := [BOpen 0; BOpen 1; BPeer 0 (Some 2); BReload []; BOpen 0; BOpen 3].
+
+Theorem bgp_invariants_example :
+  let st := b_run (b_init SNone 0) b_inv_example in
+  b_live st = [0; 1] /\ b_sess_of st 0 = Some (0, 2) /\ b_sess_of st 1 = Some (0, 1) /\
+  b_session_id st 0 = Some 4 /\ b_session_id st 1 = Some 3 /\
+  b_peer_of (b_loaded bcfg_init bcfg_init b_inv_example) 0 = Some 2 /\
+  bs_accepted st = 4 /\ forallb bop_plain b_inv_example = true.
+Proof. vm_compute. repeat split; reflexivity. Qed.
